@@ -407,7 +407,9 @@ def analyze(events, recs, fam, bufsize=0):
                 if st0 != "multipart" or mp is None:
                     arm_cap = 0
                 elif mp["kind"] == "dump":
-                    arm_cap = min(slots, sum(1 for l in mp["expect"][mp["i"]:] if F.present(l)))
+                    # (every slot takes the next leaf of the walk, present or not: only the present ones among the next
+                    # `slots` leaves are published)
+                    arm_cap = sum(1 for l in mp["expect"][mp["i"]:mp["i"] + slots] if F.present(l))
                 else:
                     arm_cap = min(slots, len(mp["expect"]) - mp["i"] + 1)
                 if reply_expected is True or (reply_expected == "maybe" and req["rt"] is not None and pubs
